@@ -856,6 +856,9 @@ func grpcErrorToTrailer(bufferPool *bufferPool, trailer http.Header, protobuf Co
 			grpcHeaderMessage,
 			grpcPercentEncode(bufferPool, statusErr.Error()),
 		)
+		// The metadata merged above may hold the binary status of another
+		// response (an upstream's error being passed on): it isn't ours.
+		trailer.Del(grpcHeaderDetails)
 		return
 	}
 	code := strconv.Itoa(int(status.Code))
@@ -872,6 +875,7 @@ func grpcErrorToTrailer(bufferPool *bufferPool, trailer http.Header, protobuf Co
 				fmt.Sprintf("marshal protobuf status: %v", binErr),
 			),
 		)
+		trailer.Del(grpcHeaderDetails) // as above
 		return
 	}
 	trailer.Set(grpcHeaderStatus, code)
